@@ -36,6 +36,7 @@ pub async fn run_line(line: &str) -> String {
         "reload_seq" => ops_dispatch::reload_seq(&args).await,
         "reload_conc" => ops_dispatch::reload_conc(&args).await,
         "lb_seq" => ops_dispatch::lb_seq(&args).await,
+        "lb_stress" => ops_dispatch::lb_stress(&args).await,
         "milu_parse" => ops_milu::milu_parse(&args),
         "milu_eval" => ops_milu::milu_eval(&args),
         "req_texts" => ops_milu::req_texts(&args),
